@@ -78,7 +78,19 @@ impl Scenario for ST {
         let shared_key = st.data.bytes(128);
         for _ in 0..n {
             let size = *sw.pick(&[32usize, 64, 128]);
-            let key = if sw.chance(1, 2) { shared_key[..size].to_vec() } else { st.data.bytes(size) };
+            // related keys: identical, differing only in the last / first word or in one bit, or unrelated
+            let mut key = shared_key[..size].to_vec();
+            match sw.below(6) {
+                0 => {}
+                1 => key[size - 1] ^= 1 << sw.below(8),
+                2 => key[size - 8] ^= 0x80,
+                3 => key[0] ^= 1,
+                4 => {
+                    let i = sw.below(size as u64) as usize;
+                    key[i] ^= 1 << sw.below(8);
+                }
+                _ => key = st.data.bytes(size),
+            }
             let tweak = match sw.below(3) {
                 0 => (0u64, 0u64),
                 1 => (1, 0),
@@ -298,29 +310,35 @@ pub fn isolated_here(setup: &J, host: u8, sub: usize, task: u32, history: &[(usi
 /// the same, but every instance alone in a brand-new PROCESS (statics, one-time initialisation and
 /// feature-detection caches are cold, and no other instance has ever existed there)
 fn isolated_cold(setup: &J, host: u8, counts: [usize; 4], history: &[(usize, Op)]) -> Result<Vec<(usize, usize, u64, bool)>, String> {
-    use std::io::Write;
-    let exe = std::env::current_exe().map_err(|e| e.to_string())?;
-    let hist = J::A(history.iter().map(|(s, o)| o.to_json().set("sub", J::U(*s as u128))).collect());
     let mut out = Vec::new();
     for sub in 0..4 {
         for task in 0..counts[sub] {
-            let req = J::obj().set("setup", setup.clone()).set("host", J::U(host as u128)).set("sub", J::U(sub as u128)).set("task", J::U(task as u128)).set("history", hist.clone());
-            let mut child = std::process::Command::new(&exe)
-                .arg("isolate")
-                .stdin(std::process::Stdio::piped())
-                .stdout(std::process::Stdio::piped())
-                .stderr(std::process::Stdio::null())
-                .spawn()
-                .map_err(|e| e.to_string())?;
-            child.stdin.take().unwrap().write_all(req.to_string().as_bytes()).map_err(|e| e.to_string())?;
-            let o = child.wait_with_output().map_err(|e| e.to_string())?;
-            let text = String::from_utf8_lossy(&o.stdout).to_string();
-            let j = J::parse(text.trim()).map_err(|e| format!("isolate child: {} ({:?})", e, text))?;
-            let log = u64::from_str_radix(j.s("log").unwrap_or("0"), 16).unwrap_or(0);
-            out.push((sub, task, log, j.u_or("failed", 0) == 1));
+            let (log, failed) = isolated_cold_one(setup, host, sub, task, history)?;
+            out.push((sub, task, log, failed));
         }
     }
     Ok(out)
+}
+
+/// one instance alone in a brand-new process: (transcript, did an inner invariant fail there?)
+fn isolated_cold_one(setup: &J, host: u8, sub: usize, task: usize, history: &[(usize, Op)]) -> Result<(u64, bool), String> {
+    use std::io::Write;
+    let exe = std::env::current_exe().map_err(|e| e.to_string())?;
+    let hist = J::A(history.iter().map(|(s, o)| o.to_json().set("sub", J::U(*s as u128))).collect());
+    let req = J::obj().set("setup", setup.clone()).set("host", J::U(host as u128)).set("sub", J::U(sub as u128)).set("task", J::U(task as u128)).set("history", hist);
+    let mut child = std::process::Command::new(&exe)
+        .arg("isolate")
+        .stdin(std::process::Stdio::piped())
+        .stdout(std::process::Stdio::piped())
+        .stderr(std::process::Stdio::null())
+        .spawn()
+        .map_err(|e| e.to_string())?;
+    child.stdin.take().unwrap().write_all(req.to_string().as_bytes()).map_err(|e| e.to_string())?;
+    let o = child.wait_with_output().map_err(|e| e.to_string())?;
+    let text = String::from_utf8_lossy(&o.stdout).to_string();
+    let j = J::parse(text.trim()).map_err(|e| format!("isolate child: {} ({:?})", e, text))?;
+    let log = u64::from_str_radix(j.s("log").unwrap_or("0"), 16).unwrap_or(0);
+    Ok((log, j.u_or("failed", 0) == 1))
 }
 
 /// entry point of the child process
@@ -424,15 +442,19 @@ impl Scenario for S7 {
                 Step::Done
             }
             Step::Fail(v) => {
-                // does this instance fail on its own as well? then it is the inner property's business
-                let (_, alone) = isolated(&w.setup, w.host, sub, inner.t, &w.history);
-                match alone {
-                    Some(_) => Step::Fail(v),
-                    None => Step::Fail(Violation::new(
+                // does this instance fail on its own as well - alone in a brand-new process, where nothing another
+                // instance did can have left a trace? then it is the inner property's business
+                let alone_fails = match isolated_cold_one(&w.setup, w.host, sub, inner.t as usize, &w.history) {
+                    Ok((_, failed)) => failed,
+                    Err(e) => panic!("cold-process isolation failed (harness error): {}", e),
+                };
+                match alone_fails {
+                    true => Step::Fail(v),
+                    false => Step::Fail(Violation::new(
                         &["C18"],
                         "L2",
                         format!("instance fails only when interleaved with others:{}:{}", SUBS[sub], v.invariant),
-                        format!("{} task {}: {} ({}); the same operations replayed alone pass", SUBS[sub], inner.t, v.signature, v.detail),
+                        format!("{} task {}: {} ({}); the same operations replayed alone in a new process pass", SUBS[sub], inner.t, v.signature, v.detail),
                     )),
                 }
             }
